@@ -279,11 +279,12 @@ func prepare(c *core.Ctx, f *File) (fc fileCtx, ok bool) {
 	fullTicks[f.ID] = fmt.Sprintf("%d of %d", base.ticks, budgetOf(f))
 	for _, m := range modes {
 		r := execute(f.Decoder, m, f.Data, 0)
-		if r.kind == "value" && fc.full.Diff(r.snap) == "" {
-			fc.modes = append(fc.modes, m)
-		} else {
-			// the complete file is outside C14's quantifier; a reader that cannot take a legal stream
-			// behaviour is reported, and that behaviour is not used for this file
+		// every legal stream behaviour is used for the prefixes, whatever the complete file did under
+		// it: a proper prefix that yields a value without an error has to be the complete data (taken
+		// from the plain in-memory decode) under any of them
+		fc.modes = append(fc.modes, m)
+		if !(r.kind == "value" && fc.full.Diff(r.snap) == "") {
+			// the complete file itself is outside C14's quantifier: reported, not alarmed
 			c.ReportedOnly("complete-file/"+m, "complete file decoded through a reader behaviour; a failure here is not a truncation")
 			c.Eval("complete-file/"+m, f.ID+": "+r.kind)
 		}
